@@ -37,7 +37,7 @@ def engine_contract(qual, abstract=False, extra_params=None):
     return fn(qual, abstract=abstract, trusted=not abstract, params=params, returns="list[ref:Individual]", fresh_result=True,
               requires=[cl("parents", "PopOf(parents[0].problem, parents) and WfProblem(parents[0].problem)")],
               modifies=chain_frame("parents[0].problem") + ENGINE_FRAME + RNG_FRAME + [("$born", "False")],
-              ensures=[cl("same_size", "len(result) == len(parents)", tags="C12"),
+              ensures=[cl("same_size", "len(result) == len(parents) and kind(result) == 0", tags="C12"),
                        cl("offspring_population", "PopOf(parents[0].problem, result)", tags="C02 C03"),
                        cl("fresh_individuals", "forall(lambda k: imp(0 <= k < len(result), fresh(result[k])), pat=result[k])", tags="C02"),
                        cl("bred_from_the_parents", "BredFrom(result, parents, old(clock()))", tags="C11"),
@@ -76,7 +76,7 @@ def deme_loop_invariants(gens, counter, limit):
            "and HistShape(self) and cur_pop(self) == old(cur_pop(self))"),
         cl("inv_still_active", "self._active and not engine_stop(self)"),
         cl("inv_generations_are_populations", f"forall(lambda g: imp(0 <= g < len({gens}), PopOf(self._problem, {gens}[g]) "
-           f"and fresh({gens}[g])), pat={gens}[g])"),
+           f"and fresh({gens}[g]) and kind({gens}[g]) == 0), pat={gens}[g])"),
         cl("inv_consulted_after_each_generation", f"imp({counter} > 0, not gsc_last(tree) and gsc_clock(tree) == clock())", tags="C05"),
         cl("inv_tree", "DemeRunnable(tree, self) and tree._gsc != None"),
         cl("inv_count", "counted(self) - old(counted(self)) >= clock() - old(clock()) and clock() >= old(clock())", tags="C03"),
